@@ -394,7 +394,7 @@ xdr_cdf(XDR *xdrs, NC **handlep)
 static bool_t
 NC_xdr_cdf(XDR *xdrs, NC **handlep)
 {
-    unsigned magic;
+    unsigned magic = NCMAGIC;
 
     if (xdrs->x_op == XDR_FREE) {
         NC_free_xcdf(*handlep);
